@@ -290,6 +290,24 @@ func c06TempPairing(p *Prog, r *Report) {
 				// which binding carries the path?
 				inner := cl.Fn.(*ssa.Function)
 				for bi, b := range cl.Bindings {
+					// the directory computed before the defer and captured: dir := filepath.Dir(path)
+					dirOutside := derivesFrom(b, func(v ssa.Value) bool {
+						cc, _ := callValue(v)
+						return cc != nil && refOf(cc.Common()).is("path/filepath", "", "Dir") && derivesFrom(cc.Call.Args[0], pathv, deriveOpts{followStores: true})
+					}, deriveOpts{followStores: true})
+					if dirOutside {
+						fvd := inner.FreeVars[bi]
+						forEachInstr(inner, func(_ *ssa.BasicBlock, _ int, in2 ssa.Instruction) {
+							c := callOf(in2)
+							if c == nil || !refOf(c).is("os", "", "RemoveAll") {
+								return
+							}
+							if derivesFrom(c.Args[0], func(x ssa.Value) bool { return x == ssa.Value(fvd) }, deriveOpts{followStores: true}) {
+								okRemove = true
+								deferIn = in
+							}
+						})
+					}
 					carries := derivesFrom(b, pathv, deriveOpts{followStores: true})
 					if !carries {
 						continue
